@@ -98,8 +98,9 @@ type Exec struct {
 	// per-thread mode (controlled schedules): answers are a function of
 	// (thread, per-thread draw index) so that the data a thread computes does
 	// not depend on the interleaving.
-	perThread bool
-	EndHash   uint64
+	perThread  bool
+	seqOutside int
+	EndHash    uint64
 }
 
 func (x *Exec) Answers() []int {
@@ -162,6 +163,10 @@ func (x *Exec) choose(kind drawKind, n, m int) int {
 	var ans int
 	if x.perThread {
 		t, idx := vsched.NextDrawIndex()
+		if idx < 0 { // no controlled execution in progress: one global sequence
+			idx = x.seqOutside
+			x.seqOutside++
+		}
 		tid = t
 		ans = x.policy.base(t*7919+idx, m)
 	} else {
